@@ -369,7 +369,7 @@ func (propC19) Cases(tier string) int {
 }
 
 func (propC19) Run(ctx *Ctx, index int) {
-	if ctx.Prog.Choose(3) == 2 {
+	if ctx.Prog.Choose(5) >= 3 {
 		dp := genC19Derived(ctx.Prog)
 		runC19Derived(ctx, dp)
 		ctx.Res.Desc = dp
@@ -633,7 +633,9 @@ type c19DerivedProg struct {
 }
 
 func genC19Derived(t *simrt.Tape) *c19DerivedProg {
-	p := &c19DerivedProg{Shape: "derived-instances", Type: c19Types[t.Choose(len(c19Types))]}
+	// composite element types are the ones that exercise shared helper state
+	derivedTypes := []string{"int", "string", "slice", "any", "slice", "any"}
+	p := &c19DerivedProg{Shape: "derived-instances", Type: derivedTypes[t.Choose(len(derivedTypes))]}
 	n := t.Range(2, 5)
 	used := map[int]bool{}
 	// bias: instances that are related to each other (same family) meet often
